@@ -365,6 +365,23 @@ def run_cases(rec, sub, cases, check, stop_after=3):
     return nv == 0
 
 
+def snapshot(**arrays):
+    """copies of the inputs of a check; `written(snap, **arrays)` lists the ones that differ afterwards"""
+    import numpy as _np
+    return {k: _np.array(v, copy=True) for k, v in arrays.items()}
+
+
+def written(snap, **arrays):
+    import numpy as _np
+    out = []
+    for k, v in arrays.items():
+        a, b = _np.asarray(v), snap[k]
+        same = a.shape == b.shape and (_np.array_equal(a, b, equal_nan=True) if a.dtype.kind == "f" else _np.array_equal(a, b))
+        if not same:
+            out.append(k)
+    return out
+
+
 def guard(fn, *a, **k):
     """Call code under test; returns (True, result) or (False, exception)."""
     try:
